@@ -1091,7 +1091,10 @@ class Interp:
         d = {}
         for k, v in zip(e.keys, e.values):
             if k is None:
-                d.update(self.eval(v, fr))
+                m = self.eval(v, fr)
+                if not isinstance(m, dict):
+                    raise SymError("dict display unpacks a value that is not a concrete-key dict (%s)" % type(m).__name__)
+                d.update(m)
             else:
                 kk = self.eval(k, fr)
                 if L.is_z3(kk):
